@@ -224,8 +224,13 @@ class SbxRun:
                 refres = self.ref.run(op.get('code'), op.get('filename'), fault=rfault)
             elif kind == 'call':
                 rargs = op_args(op)
-                refres = self.ref.call(op['fn'], tuple(rargs), copy.deepcopy(dict(op.get('kwargs', {}))), fault=rfault,
-                                       args_locals=op.get('args_locals'))
+                rkw = copy.deepcopy(dict(op.get('kwargs', {})))
+                rkw.update(copy.deepcopy(op.get('function_kwargs') or {}))
+                kwl = op.get('kwargs_locals') or {}
+                for key in kwl:
+                    rkw.setdefault(key, None)       # pedal takes the local expression for keys that are also given a value
+                refres = self.ref.call(op['fn'], tuple(rargs), rkw, fault=rfault,
+                                       args_locals=op.get('args_locals'), kwargs_locals=kwl)
             else:
                 refres = self.ref.evaluate(op['expr'], fault=rfault)
             rv = refres.pop('value')
@@ -265,9 +270,11 @@ class SbxRun:
                 elif kind == 'call':
                     ret = C.call(op['fn'], *op_args(op), inputs=inputs, threaded=op.get('threaded'),
                                  target=op.get('target', '_'), args_locals=op.get('args_locals'),
-                                 **copy.deepcopy(op.get('kwargs', {})))
+                                 function_kwargs=copy.deepcopy(op.get('function_kwargs')),
+                                 kwargs_locals=dict((k, v) for k, v in (op.get('kwargs_locals') or {}).items()) or None,
+                                 **dict(copy.deepcopy(op.get('kwargs', {})), **{k: None for k in (op.get('kwargs_locals') or {})}))
                 else:
-                    ret = C.evaluate(op['expr'], threaded=op.get('threaded'))
+                    ret = C.evaluate(op['expr'], threaded=op.get('threaded'), **({'target': op['target']} if op.get('target') else {}))
             finally:
                 MONITOR.arm(None)
         except BaseException as e:   # noqa: the harness must see everything that escapes
